@@ -564,23 +564,26 @@ Fixpoint nremove {V} (k : N) (l : list (N * V)) : list (N * V) :=
 Definition has_addr (i : intf) (ip : bytes) : bool := existsb (fun a => beq (ia_ip a) ip) (if_addrs i).
 
 (* add_interface, when the row brings a new address: every addr_auto service gets the address
-   and is announced / starts probing on the row's family (no Announce event, no second
-   announcement is scheduled here) *)
+   and is announced / starts probing on the row's family; an announcement made here is repeated one
+   second later (RegisterResend; no Announce event is raised here) *)
 Fixpoint add_row_services (svcs : list (bytes * svc)) (itf : intf) (rg : registry) (ip : bytes)
-         (now : N) (js : list N) : list (bytes * svc) * registry * list out * list N :=
+         (now : N) (js : list N) : list (bytes * svc) * registry * list out * list (N * cmd) * list N :=
   match svcs with
-  | [] => ([], rg, [], js)
+  | [] => ([], rg, [], [], js)
   | (k, s) :: t =>
     if s_auto s then
       let s1 := set_addrs (add_ip ip (s_addrs s)) s in
       let '(rg1, m, js1) := prepare_announce s1 itf rg (is_v4 ip) now js in
       let s2 := set_status (if_index itf) (match m with Some _ => SAnnounced | None => SProbing end) s1 in
       let o := match m with Some msg => [OSend (if_index itf) (is_v4 ip) Mcast msg] | None => [] end in
-      let '(t', rg2, os2, js2) := add_row_services t itf rg1 ip now js1 in
-      ((k, s2) :: t', rg2, o ++ os2, js2)
+      let rt := match m with
+                | Some _ => [(now + announce_repeat_add_interface, RegisterResend (s_full s) (if_index itf))]
+                | None => [] end in
+      let '(t', rg2, os2, rt2, js2) := add_row_services t itf rg1 ip now js1 in
+      ((k, s2) :: t', rg2, o ++ os2, rt ++ rt2, js2)
     else
-      let '(t', rg2, os2, js2) := add_row_services t itf rg ip now js in
-      ((k, s) :: t', rg2, os2, js2)
+      let '(t', rg2, os2, rt2, js2) := add_row_services t itf rg ip now js in
+      ((k, s) :: t', rg2, os2, rt2, js2)
   end.
 
 Definition add_interface (st : dstate) (r : osrow) (now : N) (js : list N) : dstate * list out * list N :=
@@ -592,13 +595,13 @@ Definition add_interface (st : dstate) (r : osrow) (now : N) (js : list N) : dst
     else
       let itf := mkIntf idx (if_name itf0) (if_addrs itf0 ++ [a]) in
       let intfs := map (fun i => if if_index i =? idx then itf else i) (d_intfs st) in
-      let '(svcs, rg, os, js') := add_row_services (d_svcs st) itf (get_reg st idx) (os_ip r) now js in
-      (mkD intfs (nset idx rg (d_regs st)) svcs (d_retrans st) (d_mon st) (d_dead st) (d_os st) (d_sel st),
+      let '(svcs, rg, os, rt, js') := add_row_services (d_svcs st) itf (get_reg st idx) (os_ip r) now js in
+      (mkD intfs (nset idx rg (d_regs st)) svcs (d_retrans st ++ rt) (d_mon st) (d_dead st) (d_os st) (d_sel st),
        os ++ mon (d_mon st) [OIp true (os_ip r)], js')
   | None =>
     let itf := mkIntf idx (os_name r) [a] in
-    let '(svcs, rg, os, js') := add_row_services (d_svcs st) itf (get_reg st idx) (os_ip r) now js in
-    (mkD (d_intfs st ++ [itf]) (nset idx rg (d_regs st)) svcs (d_retrans st) (d_mon st) (d_dead st) (d_os st) (d_sel st),
+    let '(svcs, rg, os, rt, js') := add_row_services (d_svcs st) itf (get_reg st idx) (os_ip r) now js in
+    (mkD (d_intfs st ++ [itf]) (nset idx rg (d_regs st)) svcs (d_retrans st ++ rt) (d_mon st) (d_dead st) (d_os st) (d_sel st),
      os ++ mon (d_mon st) [OIp true (os_ip r)], js')
   end.
 
